@@ -9,10 +9,22 @@
 (*         and reader built on DataX's Enc / Dec.  Law (Agree): reading at *)
 (*         the same version restores every carried field (capped text up   *)
 (*         to its cap) and consumes exactly the written bytes.             *)
+(*         The caps are a PINNED list (type, field, bytes): the caps of    *)
+(*         the transaction-start fields the statement speaks of, plus the  *)
+(*         Hash/Desc caps of the message pack as a named leniency; any     *)
+(*         other shortening of a carried text is a disagreement.           *)
+(*         Law (Stable): what an encoder or a reader handed back (bytes,   *)
+(*         a pack) is still what it was when it is looked at again after   *)
+(*         later calls (no output aliases a buffer that a later call       *)
+(*         rewrites).                                                      *)
 (* Part 2  POOL.  Per type a bag of released objects; Acquire takes any    *)
 (*         pooled object or a fresh one, Fill writes values, Release is    *)
 (*         Clear-then-put.  Law (NoResidue): an object that is not held    *)
-(*         holds no value of an earlier Fill.                              *)
+(*         holds no value of an earlier Fill.  Acquisition also happens    *)
+(*         inside the reader entry points (ToPack / ReadPack); a read that *)
+(*         fails half way (truncated or malformed datagram) has written    *)
+(*         into the pack it took: it may abandon that pack or clear it and *)
+(*         put it back, never put it back as it is.                        *)
 (* Part 3  MASKING.  A connection string is a sequence of tokens           *)
 (*         (key, value, separator); post-processing of the Go and PHP      *)
 (*         families rewrites it in two passes (split on " ", then on ";"). *)
@@ -196,19 +208,37 @@ Body(type, ver) ==
 
 Layout(type, ver) == (IF type \in HeaderLess THEN <<>> ELSE Header(ver)) \o Body(type, ver)
 
-\* documented caps of the writers (bytes), as <<field, cap>>
+\* The PINNED caps (bytes), as <<field, cap>>, transcribed from the writers as they are today.
+\* StartCaps: "the documented length caps of the transaction-start fields" of the statement.
+StartCaps == <<<<"Host", 2048>>, <<"Uri", 2048>>, <<"Ipaddr", 256>>, <<"UAgent", 2048>>,
+               <<"Ref", 2048>>, <<"WClientId", 2048>>, <<"HttpMethod", 256>>>>
+\* NAMED LENIENCY: the message pack cuts its title and its description; the statement names only the
+\* transaction-start fields, these two caps are accepted because they are as deliberate and as old
+MessageCapsLeniency == <<<<"Hash", 2048>>, <<"Desc", 32768>>>>
 Caps(type) ==
-  CASE type = "TxStart" -> <<<<"Host", 2048>>, <<"Uri", 2048>>, <<"Ipaddr", 256>>, <<"UAgent", 2048>>,
-                             <<"Ref", 2048>>, <<"WClientId", 2048>>, <<"HttpMethod", 256>>>>
-    [] type = "TxMsg"   -> <<<<"Hash", 2048>>, <<"Desc", 32768>>>>
+  CASE type = "TxStart" -> StartCaps
+    [] type = "TxMsg"   -> MessageCapsLeniency
     [] OTHER -> <<>>
 
 CapOf(caps, f) == IF \E i \in DOMAIN caps : caps[i][1] = f
                   THEN (CHOOSE i \in DOMAIN caps : caps[i][1] = f) \* index
                   ELSE 0
-\* the value a capped text field is cut to
+
+\* A long text may be recorded in COMPACT form <<-1, n, u1, ..., u16, p1, ..., pk>>: the prefix p
+\* (k <= 64, the shortest possible) followed by the first n bytes of the 16-byte unit u repeated
+\* (the harness uses it only for fields it filled with such a text, for the written and for the
+\* read value alike; the form is canonical, so equal texts have equal forms; bytes are 0..255, so
+\* -1 never starts a raw text).  Written texts have no prefix; a prefix appears when the pack's
+\* post-processing puts a marker in front of a long SQL text.
+UnitLen == 16
+IsCompact(v) == Len(v) >= UnitLen + 2 /\ v[1] = -1
+\* the value a capped text field is cut to (a cut inside a prefixed compact form does not occur:
+\* no capped field is rewritten by post-processing; such a value is left as it is)
 Capped(caps, f, v) == LET i == CapOf(caps, f) IN
-                      IF i = 0 THEN v ELSE High(v, Min(Len(v), caps[i][2]))
+                      IF i = 0 THEN v
+                      ELSE IF IsCompact(v)
+                           THEN (IF Len(v) = UnitLen + 2 THEN [v EXCEPT ![2] = Min(v[2], caps[i][2])] ELSE v)
+                      ELSE High(v, Min(Len(v), caps[i][2]))
 
 CarriedOf(layout) == {layout[i][1] : i \in DOMAIN layout}
 
@@ -299,44 +329,72 @@ MaskFamilies == {"go", "php"}
 (***************************************************************************)
 None == [none |-> TRUE]
 
-VARIABLES wire,    \* part 1: the pack on the wire: [type, ver, fields, carried, caps, bytes] or None
+VARIABLES wire,    \* part 1: the pack on the wire: [type, ver, fields, carried, caps, bytes, wlen] or None
           got,     \* part 1: what the reader made of it: [r, rp, consumed] or None
+          kept,    \* part 1: what the code handed back and the caller still holds, in order:
+                   \*         [w |-> a wire record, pack |-> the pack a reader made of it, or None]
+          seen,    \* part 1: the last second look at a kept output: [kind, id, v] or None
           bag,     \* part 2: type -> set of pooled object ids
-          obj,     \* part 2: object id -> [t, held, dirty]; dirty = fields holding a value of a Fill
+          obj,     \* part 2: object id -> [t, held, dirty, lost]; dirty = fields holding a value of a Fill
           mk       \* part 3: the last post-processing: [fam, secrets, out] or None
 
-vars == <<wire, got, bag, obj, mk>>
+vars == <<wire, got, kept, seen, bag, obj, mk>>
 
-Init == /\ wire = None /\ got = None
+Init == /\ wire = None /\ got = None /\ kept = <<>> /\ seen = None
         /\ bag = [t \in PackTypes |-> {}]
         /\ obj = <<>>
         /\ mk = None
 
 \* ---- part 1 ----
-\* the writer produced `bytes` for a pack with these field values; `carried`
-\* is the set of fields the bytes depend on, `caps` the documented caps
-UWrite(type, ver, fields, carried, caps, bytes) ==
+\* the writer produced `bytes` (wlen of them) for a pack with these field values; `carried`
+\* is the set of fields the bytes depend on, `caps` the accepted caps; keep: the caller
+\* holds on to the returned bytes
+UWrite(type, ver, fields, carried, caps, bytes, wlen, keep) ==
   /\ type \in PackTypes
   /\ carried \subseteq DOMAIN fields
-  /\ wire' = [type |-> type, ver |-> ver, fields |-> fields, carried |-> carried, caps |-> caps, bytes |-> bytes]
+  /\ LET w == [type |-> type, ver |-> ver, fields |-> fields, carried |-> carried, caps |-> caps,
+               bytes |-> bytes, wlen |-> wlen]
+     IN /\ wire' = w
+        /\ kept' = IF keep THEN Append(kept, [w |-> w, pack |-> None]) ELSE kept
   /\ got' = None
-  /\ UNCHANGED <<bag, obj, mk>>
+  /\ UNCHANGED <<seen, bag, obj, mk>>
 
 \* the reader, at the same version, produced field values r (rp: after the
 \* pack's own post-processing, None if that is not available)
 URead(r, rp, consumed) ==
   /\ wire # None /\ got = None
   /\ got' = [r |-> r, rp |-> rp, consumed |-> consumed]
-  /\ UNCHANGED <<wire, bag, obj, mk>>
+  /\ UNCHANGED <<wire, kept, seen, bag, obj, mk>>
 
+\* the same, of bytes that were handed back earlier and kept (id-th kept output); the caller
+\* holds on to the pack as well
+UReadKept(id, r, rp, consumed) ==
+  /\ id \in DOMAIN kept
+  /\ wire' = kept[id].w
+  /\ got' = [r |-> r, rp |-> rp, consumed |-> consumed]
+  /\ kept' = [kept EXCEPT ![id].pack = IF rp # None THEN rp ELSE r]
+  /\ UNCHANGED <<seen, bag, obj, mk>>
+
+\* a second look at the id-th kept output after later calls: the bytes / the pack as they are now
+UPeek(kind, id, v) ==
+  /\ kind \in {"bytes", "pack"}
+  /\ id \in DOMAIN kept
+  /\ kind = "pack" => kept[id].pack # None
+  /\ seen' = [kind |-> kind, id |-> id, v |-> v]
+  /\ UNCHANGED <<wire, got, kept, bag, obj, mk>>
+
+\* a carried field is restored in full, or cut to its pinned cap
 Expect(f) == Capped(wire.caps, f, wire.fields[f])
-Restored(f) == \/ (f \in DOMAIN got.r /\ got.r[f] = Expect(f))
-               \/ (got.rp # None /\ f \in DOMAIN got.rp /\ got.rp[f] = Expect(f))
+RestoredIn(rec, f) == f \in DOMAIN rec /\ (rec[f] = wire.fields[f] \/ rec[f] = Expect(f))
+Restored(f) == RestoredIn(got.r, f) \/ (got.rp # None /\ RestoredIn(got.rp, f))
 Agree == got # None => /\ \A f \in wire.carried : Restored(f)
-                       /\ got.consumed = Len(wire.bytes)
+                       /\ got.consumed = wire.wlen
+Stable == seen # None =>
+            seen.v = (IF seen.kind = "bytes" THEN kept[seen.id].w.bytes ELSE kept[seen.id].pack)
 
 \* ---- part 2 ----
 FieldsNotCleared(t) == {p[2] : p \in {q \in NotCleared : q[1] = t}}
+NewObj(t, d) == [t |-> t, held |-> TRUE, dirty |-> d, lost |-> FALSE]
 
 PAcquire(t, o, pooled) ==
   /\ t \in PackTypes
@@ -346,21 +404,60 @@ PAcquire(t, o, pooled) ==
           /\ obj' = [obj EXCEPT ![o].held = TRUE]
      ELSE /\ o \notin DOMAIN obj
           /\ o = Len(obj) + 1
-          /\ obj' = Append(obj, [t |-> t, held |-> TRUE, dirty |-> {}])
+          /\ obj' = Append(obj, NewObj(t, {}))
           /\ bag' = bag
-  /\ UNCHANGED <<wire, got, mk>>
+  /\ UNCHANGED <<wire, got, kept, seen, mk>>
 
 PFill(o, fs) ==
-  /\ o \in DOMAIN obj /\ obj[o].held
+  /\ o \in DOMAIN obj /\ obj[o].held /\ ~obj[o].lost
   /\ obj' = [obj EXCEPT ![o].dirty = @ \cup fs]
-  /\ UNCHANGED <<wire, got, bag, mk>>
+  /\ UNCHANGED <<wire, got, kept, seen, bag, mk>>
 
 \* Clear, then back into the bag of its type
 PRelease(o) ==
-  /\ o \in DOMAIN obj /\ obj[o].held
+  /\ o \in DOMAIN obj /\ obj[o].held /\ ~obj[o].lost
   /\ obj' = [obj EXCEPT ![o].held = FALSE, ![o].dirty = @ \cap FieldsNotCleared(obj[o].t)]
   /\ bag' = [bag EXCEPT ![obj[o].t] = @ \cup {o}]
-  /\ UNCHANGED <<wire, got, mk>>
+  /\ UNCHANGED <<wire, got, kept, seen, mk>>
+
+\* a reader entry point (ToPack / ReadPack) that succeeds: it acquires a pack and writes the
+\* fields fs of the datagram into it; the caller then holds the pack
+PReadOk(t, o, pooled, fs) ==
+  /\ t \in PackTypes
+  /\ IF pooled
+     THEN /\ o \in bag[t]
+          /\ bag' = [bag EXCEPT ![t] = @ \ {o}]
+          /\ obj' = [obj EXCEPT ![o].held = TRUE, ![o].dirty = @ \cup fs]
+     ELSE /\ o = Len(obj) + 1
+          /\ obj' = Append(obj, NewObj(t, fs))
+          /\ bag' = bag
+  /\ UNCHANGED <<wire, got, kept, seen, mk>>
+
+\* a reader entry point that FAILS half way (the caller gets no pack).  In full (used by
+\* MC_UdpPool): it took the pack o, wrote fs into it, and then, by `how`,
+\*   "leak"  abandons it (nobody holds it, it never returns; what it holds is of no interest),
+\*   "clean" clears it and puts it back,
+\*   "dirty" puts it back as it is -- what the law forbids.
+PFailedReadX(t, o, pooled, fs, how) ==
+  /\ t \in PackTypes
+  /\ IF pooled THEN o \in bag[t] ELSE o = Len(obj) + 1
+  /\ LET base == IF pooled THEN obj ELSE Append(obj, NewObj(t, {}))
+         d    == base[o].dirty \cup fs
+     IN /\ obj' = [base EXCEPT ![o] = [t |-> t, held |-> (how = "leak"), lost |-> (how = "leak"),
+                                       dirty |-> CASE how = "clean" -> d \cap FieldsNotCleared(t)
+                                                   [] how = "leak"  -> {}
+                                                   [] OTHER         -> d]]
+        /\ bag' = [bag EXCEPT ![t] = IF how = "leak" THEN @ \ {o} ELSE @ \cup {o}]
+  /\ UNCHANGED <<wire, got, kept, seen, mk>>
+\* In a recorded run the pack a failed read took is invisible.  The two lawful outcomes differ
+\* only in whether a clean object is in the pool or gone, and a fresh object is always a possible
+\* answer of Acquire (sync.Pool may drop): so the trace specification keeps bag as an
+\* OVER-APPROXIMATION of the real pool (a leaked object simply is never seen again) and a lawful
+\* failed read changes nothing observable.  The unlawful outcome shows at the next Acquire that
+\* hands the pack out: it is not clean.
+PFailedRead(t) ==
+  /\ t \in PackTypes
+  /\ UNCHANGED vars
 
 \* what an Acquire of o finds in it
 ResidueOf(o) == obj[o].dirty
@@ -373,7 +470,7 @@ PoolTypeOK == \A t \in PackTypes : \A o \in bag[t] : o \in DOMAIN obj /\ obj[o].
 PostProcess(fam, toks, out) ==
   /\ fam \in MaskFamilies
   /\ mk' = [fam |-> fam, secrets |-> SecretSyms(toks), out |-> out]
-  /\ UNCHANGED <<wire, got, bag, obj>>
+  /\ UNCHANGED <<wire, got, kept, seen, bag, obj>>
 
 NoSecretLeft == mk # None => Range(mk.out) \cap mk.secrets = {}
 
